@@ -56,6 +56,9 @@ def validate_frame_tables(ctx, rid):
     f = ctx.A.fn("wtransport_proto::stream::types::H3::set_first_frame")
     ps = nonpanic(walk(f))
     okk = len(ps) == 1 and re.match(r"^return replace\(self\.first_frame_done,1\)$", leaf_str(ps[0].leaf)) is not None
+    if not okk and len(ps) == 1:
+        # the same thing spelled out: read the old value, store true, return the old value
+        okk = leaf_str(ps[0].leaf) == "return self.first_frame_done" and [e for e in event_strs(ps[0]) if e.startswith("store ")] == ["store self.first_frame_done := 1"]
     ctx.check(rid, "H3::set_first_frame", okk,
               "H3::set_first_frame is no longer `mem::replace(mut self.first_frame_done, true)`: %s" % [leaf_str(p.leaf) for p in ps],
               where(f))
@@ -270,16 +273,16 @@ def settings_runner_tables(ctx, rid):
     A = ctx.A
     fn = _t(A, r"^wtransport::driver::streams::settings::RemoteSettingsStream::run::\{closure#0\}$")
     RF = r"await\(RemoteSettingsStream::read_frame\(self\)\)"
-    NONE = r"Option::is_none\(Sender::borrow\(self\.settings\)\)"
+    SET = r"Sender::borrow\(self\.settings\)"
     rows = [
-        {"name": "after-settings/GREASE->continue", "atoms": [r"^!%s$" % NONE, r" is Exercise$"], "leaf": r"^continue$"},
-        {"name": "after-settings/other->FrameUnexpected", "atoms": [r"^!%s$" % NONE, r" isnot Exercise$"],
+        {"name": "after-settings/GREASE->continue", "atoms": [r"^%s ok$" % SET, r" is Exercise$"], "leaf": r"^continue$"},
+        {"name": "after-settings/other->FrameUnexpected", "atoms": [r"^%s ok$" % SET, r" isnot Exercise$"],
          "leaf": r"^return DriverError::Proto\(ErrorCode::FrameUnexpected\)$"},
-        {"name": "first/SETTINGS ok->publish", "atoms": [r"^%s$" % NONE, r" is Settings$", r"^Settings::with_frame\(.*\) ok$"],
+        {"name": "first/SETTINGS ok->publish", "atoms": [r"^%s fails$" % SET, r" is Settings$", r"^Settings::with_frame\(.*\) ok$"],
          "events": [r"^Sender::send_replace\(self\.settings,Option::Some\(ok\(Settings::with_frame\(ok\(%s\)\)\)\)\)$" % RF], "leaf": r"^continue$"},
-        {"name": "first/SETTINGS malformed->its code", "atoms": [r"^%s$" % NONE, r" is Settings$", r"^Settings::with_frame\(.*\) fails$"],
+        {"name": "first/SETTINGS malformed->its code", "atoms": [r"^%s fails$" % SET, r" is Settings$", r"^Settings::with_frame\(.*\) fails$"],
          "leaf": r"^return DriverError::Proto\(err\(Settings::with_frame\(ok\(%s\)\)\)\)$" % RF},
-        {"name": "first/not SETTINGS->MissingSettings", "atoms": [r"^%s$" % NONE, r" isnot Settings$"],
+        {"name": "first/not SETTINGS->MissingSettings", "atoms": [r"^%s fails$" % SET, r" isnot Settings$"],
          "leaf": r"^return DriverError::Proto\(ErrorCode::MissingSettings\)$"},
         {"name": "read error passthrough", "atoms": [r"^%s fails$" % RF], "leaf": r"^return err\(%s\)$" % RF},
     ]
